@@ -9,11 +9,13 @@ from props import common as K
 
 META = {
     "level": "other",
+    "technique": "static analysis of type-checked MIR (rustc_private driver): abstract interpretation of the filter decision functions into complete case tables; provenance of payload and serializer fields; list-coverage rule",
     "explanation": "The decision functions of the three filter kinds are abstractly interpreted (Option::map closures inlined) "
                    "and the resulting complete case tables are compared for equality with the specification (filter covers "
                    "origin, argument order included); the container's drop_payload is checked to consult every filter list "
                    "whose element type has a drop_payload and to return true on its true edge; every assertion's payload is "
-                   "built from exactly its own fields and iter_payload chains all three lists.",
+                   "built from exactly its own fields and iter_payload chains all three lists; hand-written serializers write "
+                   "each field from the value's own data and omit it only when that data is None.",
     "not_decided": ["JSON round-trip equality (serde-derived; value equality)"],
     "trusted_base": ["Prefix::covers (C13 not decided)", "derived PartialEq of Asn / KeyIdentifier"],
 }
